@@ -301,6 +301,9 @@ func (s *LegacyServer) TokenExchange(ctx context.Context, r *ClientRequest[oidc.
 	if !s.provider.GrantTypeTokenExchangeSupported() {
 		return nil, unimplementedGrantError(oidc.GrantTypeTokenExchange)
 	}
+	if r.Client.AuthMethod() == oidc.AuthMethodNone {
+		return nil, oidc.ErrInvalidClient().WithDescription("client must be authenticated")
+	}
 	tokenExchangeRequest, err := CreateTokenExchangeRequest(ctx, r.Data, r.Client, s.provider)
 	if err != nil {
 		return nil, err
